@@ -26,4 +26,86 @@ META = {
             "bitwise equality is required wherever both sides use the same conversion; 1e-8 relative on ll only between pack() and read_batch() conversions of non-internal units",
         ],
     },
+    "C02": {
+        "level": "exploration",
+        "technique": "deterministic simulation: history check at the RNG seam (recorded uniforms/shuffles) against a reference acceptance model, over paths x schedules x seeds",
+        "level_text": "Seeded exploration: every rejection_sample call (in-memory / cache / file, shuffled or not, truncated or not, under seeded pool schedules) is judged from the "
+        "history recorded at the RNG, pool and storage seams: rows evaluated (from the task lists / in-memory evaluation point), the uniform vector drawn on the sampler's own generator, "
+        "the row-at-a-time likelihood L*, and a pure-Python reference acceptance loop; the returned nonlinear columns must be exactly the accepted library rows, in evaluation order, truncated at the right end.",
+        "level_note": "Input dimension (libraries, data) is only as dense as the configuration swarm samples it (weaker than dedicated input generation). ll comes from the system's own kernel (L*). "
+        "Positions where exp(ll-max) is within 1e-12 of u are not judged. NaN likelihoods are outside the quantifier and not judged.",
+        "design_ref": "DESIGN.md section 4 / C02",
+        "rule": _SCHED_RULE + "C02 judges each rejection_sample call against the reference acceptance model built from the recorded uniform vector.",
+        "assumptions": ["L* from the system's own kernel", "-inf likelihoods next to finite ones could not be produced with finite data in this code base (probe inf_next_to_finite reports reach)"],
+    },
+    "C03": {
+        "level": "exploration",
+        "technique": "deterministic simulation: draw-to-row attribution at the RNG seam + differential of (a, A) across schedules/histories (closed form NOT claimed)",
+        "level_text": "RESTRICTED claim: attribution, count, order and units of the linear draws, unchanged nonlinear copy, metadata, and bit-identical (mean, cov) arguments for a library row whatever the "
+        "batching, transport, order, pool kind or call history (fresh-helper single-row reference). The distributional core -- that (a, A) equal the closed-form conditional posterior -- is a pure function of the inputs and is not decided by this technique.",
+        "level_note": "Does not check the values of a, A against the analytic formula (jitter, K-variance cap): that is input-space work outside deterministic simulation. Trusts numpy's multivariate_normal.",
+        "design_ref": "DESIGN.md section 4 / C03",
+        "rule": _SCHED_RULE + "C03 attributes every recorded multivariate_normal draw to the accepted library row it was made for.",
+        "assumptions": ["closed form of (a, A) not checked (restricted claim)"],
+    },
+    "C06": {
+        "level": "exploration",
+        "technique": "deterministic simulation: unique-tag attribution of ln_prior/ln_likelihood through three index spaces over paths x schedules",
+        "level_text": "Every library row carries a unique ln_prior tag; with return_logprobs the returned tag must name the library row whose nonlinear values the row holds and ln_likelihood must be L* of that row; "
+        "return_all_logprobs must equal L* in evaluation order; both samplers, all paths, shuffled/subset/truncated configurations biased so that the three index spaces differ.",
+        "level_note": "Depends on the C02/C14 reconstruction of the expected accepted rows; ops whose acceptance is not judgeable (NaN, ambiguous) are skipped.",
+        "design_ref": "DESIGN.md section 4 / C06",
+        "rule": _SCHED_RULE + "C06 checks the tag carried by each returned row.",
+        "assumptions": ["L* from the system's own kernel"],
+    },
+    "C10": {
+        "level": "exploration",
+        "technique": "deterministic simulation: twin replays under different schedules/pool kinds and poisoned global RNG state; stream-uniqueness invariant at the pool seam; mid-run clone twin",
+        "level_text": "Each call sequence runs as twins with equal seeds and batching but different schedules (transport, chunking, completion order, worker assignment, serial vs simulated multi-process pool) "
+        "and different poisoned numpy/python global random state: outputs must be bit-identical, global state digests unchanged after every op, every child generator crossing the pool seam unique, no draw block repeated, and a clone of the generator taken mid-run must reproduce the remaining ops.",
+        "level_note": "Real multiprocess scheduling is modelled by SimPool; the fresh-interpreter/hash-seed dimension is covered by the CLI's determinism self-test (same seeds re-run under another PYTHONHASHSEED).",
+        "design_ref": "DESIGN.md section 4 / C10",
+        "rule": _SCHED_RULE + "C10 runs every program three times (twin A, twin B under another schedule and global poison, clone twin C).",
+        "assumptions": ["prior.sample ops are expensive (pytensor compile) and drawn for ~1 run in 10"],
+    },
+    "C12": {
+        "level": "exploration",
+        "technique": "deterministic simulation: seeded stateful write/overwrite/append/read histories against an in-memory table model, with refused-operation and storage-open faults",
+        "level_text": "Histories of 2-10 file operations over 1-3 paths (.hdf5/.h5/.fits) are executed on the real code and compared op by op with a reference table model: read-back equality (columns, values bitwise, units, t_ref, poly_trend, n_offsets), "
+        "appends = concatenation, must-refuse appends (different column set, conflicting metadata) raise and leave the file byte-identical (SHA-256), may-refuse appends either raise+identical or convert correctly, read_batch returns exactly the requested rows/columns/units.",
+        "level_note": "Appending a table whose t_ref is None to a file that has one, and what remains after a write that failed half-way, are unspecified by the statement and not judged. Reading through an open PyTables group is outside the model (the code records that limitation).",
+        "design_ref": "DESIGN.md section 4 / C12",
+        "rule": "One case = one seeded history of file operations. distinct_nontrivial counts distinct (operation, variant/selector kind, file format, file existed or not) tuples reached; a single write is trivial, any op on an existing file or a refused/faulted op is not.",
+        "assumptions": ["values compared bitwise on read-back; 4 ulp (f8) / 2e-6 relative (f4) on unit-converted batch reads"],
+    },
+    "C13": {
+        "level": "fault_enumeration",
+        "technique": "fault enumeration inside deterministic simulation: every call event of the sampling entry points failed at its k-th occurrence (sys.monitoring), plus pool/worker/transport/RNG faults; leak, user-file-hash, propagation and follow-up-call oracles",
+        "level_text": "For each sampled workload (entry point x cache-or-user-file x pool kind x options) the crash-point index k is ENUMERATED over all call events made inside thejoker during the call (runs of > 8 identical consecutive sites thinned to 6), "
+        "with five rotating exception kinds incl. KeyboardInterrupt, plus worker-before/after x abort/continue, pool.map broken, unserialisable task, and k-th generator draw failing. After each trial: the exception reached the caller with the injected error on its chain, "
+        "no temp cache file remains, the user file's SHA-256/size/mtime are unchanged, and the same TheJoker object repeats the call bit-identically to a fresh twin.",
+        "level_note": "Complete over k per sampled workload up to the stated thinning rule; workloads are sampled. Calls made inside the Cython kernel are not call events (covered via the RNG seam). Leak clause waived only when the failed call is the cleanup os.unlink itself.",
+        "design_ref": "DESIGN.md section 4 / C13",
+        "rule": "One case = one workload whose crash points are enumerated. evaluations counts workloads; distinct_nontrivial counts distinct (entry point, call site file:function->callee, exception kind) and (entry point, non-call fault kind, position) tuples at which a fault actually FIRED.",
+        "assumptions": ["thinning: runs of > 8 identical consecutive call sites reduced to first/middle/last + 3 seeded picks (quick); thorough enumerates all"],
+    },
+    "C14": {
+        "level": "exploration",
+        "technique": "deterministic simulation: history check over RNG + storage + pool seams with NaN-row storage fault",
+        "level_text": "Every iterative_rejection_sample call is judged from the recorded history: rows handed to the likelihood (no row twice, at most min(max_prior_samples, N)), the last uniform vector on the sampler's generator, L* over all evaluated rows, "
+        "reference acceptance against the max over ALL evaluated rows, first n_requested accepted returned with their linear draws; too-small libraries must raise; any outcome other than a JokerSamples or a raised exception is a violation. The growth schedule is not in the oracle.",
+        "level_note": "Bounded progress = at most 130 likelihood rounds. Corrupted (NaN) stored value is the storage fault used for the 'always raises' clause.",
+        "design_ref": "DESIGN.md section 4 / C14",
+        "rule": _SCHED_RULE + "C14 judges each iterative call against the reference acceptance model over all evaluated rows.",
+        "assumptions": ["L* from the system's own kernel"],
+    },
+    "C16": {
+        "level": "exploration",
+        "technique": "deterministic simulation: invariant on every task list crossing the pool seam and on every batch_tasks call the package makes; start_idx>0 by direct seeded calls (plain random testing, labelled)",
+        "level_text": "Invariant checked on every partition observed in simulated runs (contiguous, non-empty, non-overlapping, ordered, exact cover of range or array, each task carries its own start) plus direct seeded calls of utils.batch_tasks for start_idx > 0, which the package itself never uses -- that part is plain random testing of a pure function and is labelled so.",
+        "level_note": "Reference is the statement itself (not a particular partition): the way the remainder is distributed and the number of batches are not constrained.",
+        "design_ref": "DESIGN.md section 4 / C16",
+        "rule": "One case = one simulated run with several sampling ops and 4-12 direct batch_tasks calls. distinct_nontrivial counts distinct (n_tasks, n_batches, with_array[, start_idx]) tuples reached plus distinct non-trivial schedules; n_tasks=1 with n_batches=1 is trivial.",
+        "assumptions": ["start_idx>0 reached only by direct calls"],
+    },
 }
